@@ -194,7 +194,7 @@ class HTok(common.Harness):
         eng, T = self.eng, self.T
         self.nperm = 0
         exts, self.sym = [], []
-        kinds = ["supra", "section", "cite_us", "stop_v", "id"]
+        kinds = self.params.get("kinds") or ["supra", "section", "cite_us", "stop_v", "id"]
         import eyecite.models as M
 
         for i in range(self.K):
@@ -536,14 +536,21 @@ def merge_sweep():
 def check(rep):
     quick = rep.tier == "quick"
     K = 2 if quick else 3
-    rep.bounds.append(f"(a) {K} abstract extractors (unfiltered / case-sensitive / case-insensitive) each yielding one candidate token of symbolic kind and offsets, every iteration order of every set; (b) merge of two citation tokens whose edition tuples are drawn from a pool of 4 editions (nominative, two ordinary, one sharing a short_name with another reporter), every de-duplication order")
+    rep.bounds.append(f"(a) 2 abstract extractors (unfiltered / case-sensitive / case-insensitive) each yielding one candidate token of symbolic kind (5 kinds) and offsets" + ("" if quick else ", and 3 extractors over 3 token kinds") + ", every iteration order of every set; (b) merge of two citation tokens whose edition tuples are drawn from a pool of 4 editions (nominative, two ordinary, one sharing a short_name with another reporter), every de-duplication order")
     rep.outside += ["thread schedules (no usable concurrency model of CPython here; the shared writes are the idempotent _compiled_regex and _db caches)", "cross-call history beyond the frame condition on the tokenizer object (tokenize leaves its attributes unchanged) and the call-sequence replay", "order of the candidate-edition tuples themselves (compared as sets)"]
     rep.stubs += ["set(...): iteration order is an arbitrary permutation (this is the PYTHONHASHSEED variable)", "ahocorasick automata: report every registered word that occurs (occurrence fixed true)", "Tokenizer.append_text: its summary (see C12)", "hash_sha256: injective"]
     findings = []
-    agg = common.explore_split("vf.harness.c15", {"part": "tok", "K": K}, depth=4)
+    agg = common.explore_split("vf.harness.c15", {"part": "tok", "K": 2}, depth=4)
     rep.merge_explore("tokenize_under_permuted_sets", agg)
     findings += [("tok", f) for f in agg["findings"]]
     tot = dict(agg["verdicts"])
+    if not quick:
+        # three extractors over three token kinds (all five kinds at K = 3 did not finish in an hour)
+        agg = common.explore_split("vf.harness.c15", {"part": "tok", "K": 3, "kinds": ["supra", "section", "cite_us"]}, depth=5, timeout=3 * 3600)
+        rep.merge_explore("tokenize_under_permuted_sets_3", agg)
+        findings += [("tok", f) for f in agg["findings"]]
+        for k, v in agg["verdicts"].items():
+            tot[k] = tot.get(k, 0) + v
     agg = common.explore_split("vf.harness.c15", {"part": "merge"}, depth=4)
     rep.merge_explore("merge_under_permuted_sets", agg)
     findings += [("merge", f) for f in agg["findings"]]
